@@ -23,7 +23,7 @@ ASSUMPTIONS = ["known finding route-shadowing: valid Basic credentials whose tex
 
 
 def nontrivial(c):
-    if c.kind == "authuser":
+    if c.kind in ("authuser", "pathprobe"):
         return True
     return c.fields[2] != "none"
 
